@@ -32,7 +32,22 @@ pub fn file_model(max_n: usize, max_parts: usize, max_pts: usize) -> BoxedStrate
                 5 => gen::fgeom(ty, max_parts, max_pts),
                 1 => Just(Geom::null()),
             ];
-            gen::svec((rec, any::<i32>()).boxed(), 0, max_n).prop_map(move |recs| FileModel {
+            (gen::svec((rec, any::<i32>()).boxed(), 0, max_n), 0u8..10, any::<u16>()).prop_map(move |(mut recs, rel, ix)| {
+                // a record repeated right after itself / all records identical
+                if !recs.is_empty() {
+                    let i = gen::pick(ix, recs.len());
+                    if rel == 0 {
+                        let d = recs[i].clone();
+                        recs.insert(i + 1, d);
+                    } else if rel == 1 {
+                        let d = recs[i].clone();
+                        for r in recs.iter_mut() {
+                            *r = d.clone();
+                        }
+                    }
+                }
+                recs
+            }).prop_map(move |recs| FileModel {
                 ty,
                 header_bbox,
                 recs: recs
